@@ -2,6 +2,7 @@ package harness
 
 import (
 	"fmt"
+	"sort"
 	"strings"
 	"time"
 
@@ -616,6 +617,82 @@ func c04Race2Scenario(kind string) *explore.Scenario {
 	return sc
 }
 
+// c04LifecycleScenario: the events the client generates itself (REGISTER, CONNECTED, DISCONNECTED) are dispatched
+// through the same registry: three foreground and two background handlers on each, registered under different
+// spellings; one foreground handler removes itself at its first event, one registers a further handler at its
+// first event. Two connections; every handler's invocation count is compared with the model.
+func c04LifecycleScenario() *explore.Scenario {
+	sc := &explore.Scenario{
+		Family: "handlers-lifecycle",
+		Name:   "handlers-lifecycle/two-connections",
+		Params: map[string]interface{}{"connections": 2},
+		Opt:    vx.Options{MaxSteps: 100000},
+	}
+	events := []string{client.REGISTER, client.CONNECTED, client.DISCONNECTED}
+	sc.Main = func(env *vx.Env) {
+		c := NewClient("me", nil)
+		for _, ev := range events {
+			ev := ev
+			note := func(id string) { vx.Observe("ev", "ran "+ev+" "+id) }
+			c.HandleFunc(strings.ToLower(ev), func(*client.Conn, *client.Line) { note("fg-lower") })
+			var self client.Remover
+			self = c.HandleFunc(ev, func(*client.Conn, *client.Line) {
+				note("fg-rmself")
+				self.Remove()
+			})
+			added := false
+			c.HandleFunc(ev, func(conn *client.Conn, _ *client.Line) {
+				note("fg-adder")
+				if !added {
+					added = true
+					conn.HandleFunc(ev, func(*client.Conn, *client.Line) { note("fg-added") })
+				}
+			})
+			c.HandleBG(ev, client.HandlerFunc(func(*client.Conn, *client.Line) { note("bg-a") }))
+			c.HandleBG(strings.Title(strings.ToLower(ev)), client.HandlerFunc(func(*client.Conn, *client.Line) { note("bg-title") }))
+		}
+		for cycle := 0; cycle < 2; cycle++ {
+			var vc *vx.Conn
+			env.ConnSetup = func(x *vx.Conn) { vc = x }
+			if err := c.Connect(); err != nil {
+				vx.Observe("ev", "connect-failed")
+				return
+			}
+			vx.Quiesce()
+			vc.SendLines(welcome)
+			vx.Quiesce()
+			vc.EOF()
+			vx.Quiesce()
+		}
+	}
+	sc.Check = func(o *vx.Outcome) []explore.Finding {
+		if fs := stdOutcome(o); fs != nil {
+			return fs
+		}
+		got := map[string]int{}
+		for _, r := range o.Log("ev") {
+			got[r]++
+		}
+		var fs []explore.Finding
+		for _, ev := range events {
+			for id, want := range map[string]int{"fg-lower": 2, "fg-rmself": 1, "fg-adder": 2, "fg-added": 1, "bg-a": 2, "bg-title": 2} {
+				if n := got["ran "+ev+" "+id]; n != want {
+					fs = append(fs, explore.Finding{Oracle: "invocation-count", Msg: fmt.Sprintf("handler %s on %s ran %d times over two connections, expected %d (removed itself at its first event: 1; added during the first event: from the second on) :: %v", id, ev, n, want, o.Log("ev"))})
+				}
+			}
+		}
+		if got["connect-failed"] > 0 {
+			fs = append(fs, explore.Finding{Oracle: "deadlock", Msg: "the second connect failed"})
+		}
+		sort.Slice(fs, func(i, j int) bool { return fs[i].Msg < fs[j].Msg })
+		if len(fs) > 1 {
+			fs = fs[:1]
+		}
+		return fs
+	}
+	return sc
+}
+
 // overlapping dispatches: background handlers under two names, events arriving back to back (no quiescence in
 // between), so that the background dispatch of one event is still running when the next one begins
 func c04OverlapScenario(nbg, nev int) *explore.Scenario {
@@ -688,7 +765,7 @@ func c04OverlapScenario(nbg, nev int) *explore.Scenario {
 func init() {
 	Register(&Prop{
 		ID:   "C04",
-		Rule: "all histories up to depth 5 (quick) / 6 (thorough) that end in an event, over 20 letters = register fg/bg (Handle, HandleFunc, HandleBG) under foo/FOO/Foo/baz, 8 scripted handlers (remove self, remove previous sibling, add to own set, add to other set; in scripted histories also: remove a later sibling), Remove of the first/second/last registered handler, events FOO and BAZ; each history runs on a fresh real session and per-handler invocation counts are compared with the multiset model after every event; plus registry changes made by a slow foreground handler while the next line is already received and queued (add / remove / replace a fg / bg handler for it after 0, 1 ms, 1 s, 1 h of virtual time; also with forty other lines queued in between, more than the input queue holds); plus scripted histories, racing Handle/HandleBG/Remove calls from another goroutine (against a dispatch in flight, and two calls against each other: two first registrations of a name, registration against removal of the only handler, two removals), and back-to-back events whose background dispatches overlap, under K<=2 schedule deviations; distinct = distinct histories",
+		Rule: "all histories up to depth 5 (quick) / 6 (thorough) that end in an event, over 20 letters = register fg/bg (Handle, HandleFunc, HandleBG) under foo/FOO/Foo/baz, 8 scripted handlers (remove self, remove previous sibling, add to own set, add to other set; in scripted histories also: remove a later sibling), Remove of the first/second/last registered handler, events FOO and BAZ; each history runs on a fresh real session and per-handler invocation counts are compared with the multiset model after every event; plus registry changes made by a slow foreground handler while the next line is already received and queued (add / remove / replace a fg / bg handler for it after 0, 1 ms, 1 s, 1 h of virtual time; also with forty other lines queued in between, more than the input queue holds); plus three foreground and two background handlers (other spellings, one removing itself, one adding a handler) on each of REGISTER, CONNECTED and DISCONNECTED over two connections; plus scripted histories, racing Handle/HandleBG/Remove calls from another goroutine (against a dispatch in flight, and two calls against each other: two first registrations of a name, registration against removal of the only handler, two removals), and back-to-back events whose background dispatches overlap, under K<=2 schedule deviations; distinct = distinct histories",
 		Assumptions: []string{
 			"sequential histories run under the default scheduler with quiescence between top-level operations; interleavings are the subject of the handlers-concurrent / handlers-race families",
 			"each Remover is used at most once (guarded by the harness); a handler added to the other set during an event may or may not see that event",
@@ -708,6 +785,7 @@ func init() {
 				}
 			}
 			jobs = append(jobs, c04QueuedJob())
+			jobs = append(jobs, ExploreJob("C04", ExploreSpec{Sc: c04LifecycleScenario(), Variants: []int{1, 2, 3}, Budgets: []explore.Budget{{0, 0}, {1, 0}}, Cache: true}, 30))
 			R := func(set, via, name, script string) c04Op {
 				return c04Op{Kind: "reg", Set: set, Via: via, Name: name, Script: script}
 			}
